@@ -18,7 +18,7 @@ func init() {
 	register("R-PAIR", "parser nesting counters are balanced: in every parser method, on every path from entry to a normal return, the net change of each integer field of the parser that the method increments (loop depth) is zero, so an early return cannot leave the parser believing it is still inside a loop (paths that panic with a parse error abort the parse and are exempt)", rulePair)
 	register("R-PARSEPOS", "every AST node the parser constructs gets its source positions: each composite literal of an internal/ast node type in package parser assigns every field of type lexer.Position, so resolver and compiler errors about that node carry a position inside the source instead of 0:0", ruleParsePos)
 	register("R-REGEX-LONGEST", "leftmost-longest: every regexp compiled from script-controlled text (regexp.Compile / MustCompile results that are stored, cached, returned or otherwise escape) has Longest() called on it on every path before it escapes, and its source is wrapped by AddRegexFlags or QuoteMeta", ruleRegexLongest)
-	register("R-RESOLVE-OWNER", "type inference bookkeeping has one writer: the resolver's variable-type table is updated only by Resolve (initialisation, defaulting, index assignment) and by recordVar, and every update of a type in recordVar is followed by incrementing the change counter that drives the fixpoint iteration; a write elsewhere would change a type without scheduling another pass", ruleResolveOwner)
+	register("R-RESOLVE-OWNER", "type inference bookkeeping: every update of the resolver's variable-type table made during the fixpoint iteration (in code reachable from a tree visitor) is followed by incrementing the change counter that drives the iteration and is written into the scope the variable was found in; set-up and finalisation code (the rest of package resolver) writes outside the iteration; every pass walks the function bodies, BEGIN, the actions and END unconditionally and Resolve never changes the visitor between passes; one iteration of the loop over a user call's arguments, evaluated on the SSA form for a variable argument (callee native / not native), records a type or raises the conflict on every path", ruleResolveOwner)
 }
 
 func isNillable(t types.Type) bool {
